@@ -2,6 +2,7 @@
 # tools/confirm_seed.sh <seed-dir> : confirm a seeded change in the scratch worktree /var/tmp/stylua-wt
 # (patch applies to /repo HEAD, test-suite passes with it, demo fails with it and passes without)
 D="$1"; WT=/var/tmp/stylua-wt
+[ -d "$WT" ] || git -C /repo worktree add --detach "$WT" HEAD -q     # scratch worktree outside /repo and /verif (remove it when done: git -C /repo worktree remove --force /var/tmp/stylua-wt)
 cd $WT || exit 9
 git checkout -q --detach "$(git -C /repo rev-parse HEAD)" 2>/dev/null; git reset -q --hard; git clean -fdq -e target
 echo "== $D"
